@@ -8,3 +8,4 @@ import GormModel.Props.C18
 import GormModel.Props.C17
 import GormModel.Props.C05
 import GormModel.Props.C13
+import GormModel.Props.C11
